@@ -42,6 +42,11 @@ type Case struct {
 	Ops      [][]any `json:"ops"`
 	// wheel: values whose execute callback blocks until ["release", value] (gated delivery)
 	Hold []int64 `json:"hold"`
+	// wheel: string and int64 keys with the same digits; a second wheel alongside
+	SKeys     bool   `json:"skeys"`
+	N2        int    `json:"n2"`
+	Interval2 int64  `json:"interval2"`
+	Ticker2   string `json:"ticker2"`
 	// free: one script per goroutine (last element of an op = pause afterwards, in us), ticks
 	Threads     [][][]any `json:"threads"`
 	Ticks       int       `json:"ticks"`
@@ -56,6 +61,7 @@ type Step struct {
 	Keys []int64    `json:"keys,omitempty"` // cache: keys of c.data afterwards
 	Ret  []any      `json:"ret,omitempty"`  // cache: Get -> [v|null]; Take -> [v|null, loaderCalled]
 	C    [][2]int64 `json:"c,omitempty"`    // cleaner: task invocations (task id, how many-th call)
+	X    [][2]int64 `json:"x,omitempty"`    // two wheels: callbacks of the OTHER wheel during this operation
 }
 
 type Out struct {
@@ -112,13 +118,6 @@ func busy(stack string) bool {
 }
 
 func num(v any) int64 { return int64(v.(float64)) }
-
-func key(v any) any {
-	if v == nil {
-		return nil
-	}
-	return num(v)
-}
 
 func errClass(err error) int {
 	switch {
@@ -207,98 +206,182 @@ func (g *gates) releaseAll() {
 
 // ---- the wheel through its public API ------------------------------------------------
 
+// one wheel driven through its public API
+type wheelInst struct {
+	tw      *collection.TimingWheel
+	rv      *rticker
+	fk      timex.FakeTicker
+	fs      fires
+	gt      *gates
+	stopped bool
+	skeys   bool
+}
+
+const nilValue = int64(-777)
+
+// with skeys, odd keys k are passed as the string of k-1 and even keys as int64: the wheel
+// must keep int64(2) and "2" apart
+func (w *wheelInst) key(v any) any {
+	if v == nil {
+		return nil
+	}
+	k := num(v)
+	if w.skeys && k%2 != 0 {
+		return strconv.FormatInt(k-1, 10)
+	}
+	return k
+}
+
+func (w *wheelInst) unkey(k any) int64 {
+	switch x := k.(type) {
+	case int64:
+		return x
+	case string:
+		n, _ := strconv.ParseInt(x, 10, 64)
+		return n + 1
+	}
+	return -1
+}
+
+func unval(v any) int64 {
+	if v == nil {
+		return nilValue
+	}
+	return v.(int64)
+}
+
+func val(v any) any {
+	if v == nil {
+		return nil
+	}
+	return num(v)
+}
+
+func newWheelInst(n int, interval int64, ticker string, hold []int64, skeys bool) (*wheelInst, error) {
+	w := &wheelInst{gt: newGates(hold), skeys: skeys}
+	var tk timex.Ticker
+	if ticker == "fake" {
+		w.fk = timex.NewFakeTicker()
+		tk = w.fk
+	} else {
+		w.rv = &rticker{c: make(chan time.Time)}
+		tk = w.rv
+	}
+	tw, err := collection.NewTimingWheelWithTicker(time.Duration(interval), n, w.record, tk)
+	w.tw = tw
+	return w, err
+}
+
+func (w *wheelInst) record(k, v any) {
+	x := unval(v)
+	w.fs.add(w.unkey(k), x)
+	w.gt.wait(x)
+	if x%1000 == 999 {
+		panic("verif: callback panics")
+	}
+}
+
+// Drain hands its callbacks to a bounded runner from inside the run loop: never gated
+func (w *wheelInst) drained(k, v any) {
+	x := unval(v)
+	w.fs.add(w.unkey(k), x)
+	if x%1000 == 999 {
+		panic("verif: callback panics")
+	}
+}
+
+func (w *wheelInst) close() {
+	w.gt.releaseAll()
+	if !w.stopped {
+		w.tw.Stop()
+	}
+}
+
+func (w *wheelInst) do(op []any) int {
+	r := 0
+	switch op[0].(string) {
+	case "set":
+		r = errClass(w.tw.SetTimer(w.key(op[1]), val(op[2]), time.Duration(num(op[3]))))
+	case "move":
+		r = errClass(w.tw.MoveTimer(w.key(op[1]), time.Duration(num(op[2]))))
+	case "remove":
+		r = errClass(w.tw.RemoveTimer(w.key(op[1])))
+	case "tick":
+		if w.stopped {
+			// the loop has returned: nobody receives from the ticker any more
+			// (a FakeTicker is closed by Stop, sending would panic)
+			if w.rv != nil {
+				select {
+				case w.rv.c <- time.Now():
+					r = 0
+				case <-time.After(3 * time.Millisecond):
+					r = 2
+				}
+			} else {
+				r = 2
+			}
+		} else if w.rv != nil {
+			w.rv.c <- time.Now()
+		} else {
+			w.fk.Tick()
+		}
+	case "drain":
+		r = errClass(w.tw.Drain(w.drained))
+	case "release":
+		w.gt.release(num(op[1]))
+	case "stop":
+		func() {
+			defer func() {
+				if recover() != nil {
+					r = 3
+				}
+			}()
+			w.tw.Stop()
+		}()
+		w.stopped = true
+	}
+	if !w.stopped {
+		// the loop is sequential: once it takes this no-op, the operation above is done
+		w.tw.RemoveTimer(sentinel)
+	}
+	return r
+}
+
+// one wheel, or two wheels living side by side (operations ["@", index, op...])
 func runWheel(c Case) Out {
 	out := Out{ID: c.ID}
-	var fs fires
-	gt := newGates(c.Hold)
-	defer gt.releaseAll()
-	record := func(k, v any) {
-		fs.add(k.(int64), v.(int64))
-		gt.wait(v.(int64))
-		if v.(int64)%1000 == 999 {
-			panic("verif: callback panics")
-		}
-	}
-	// Drain hands its callbacks to a bounded runner from inside the run loop: never gated
-	drained := func(k, v any) {
-		fs.add(k.(int64), v.(int64))
-		if v.(int64)%1000 == 999 {
-			panic("verif: callback panics")
-		}
-	}
-	var rv *rticker
-	var fk timex.FakeTicker
-	var tk timex.Ticker
-	if c.Ticker == "fake" {
-		fk = timex.NewFakeTicker()
-		tk = fk
-	} else {
-		rv = &rticker{c: make(chan time.Time)}
-		tk = rv
-	}
-	tw, err := collection.NewTimingWheelWithTicker(time.Duration(c.Interval), c.N, record, tk)
+	w0, err := newWheelInst(c.N, c.Interval, c.Ticker, c.Hold, c.SKeys)
 	if err != nil {
 		out.Err = err.Error()
 		return out
 	}
-	stopped := false
-	defer func() {
-		if !stopped {
-			tw.Stop()
+	defer w0.close()
+	ws := []*wheelInst{w0}
+	if c.N2 > 0 {
+		w1, err := newWheelInst(c.N2, c.Interval2, c.Ticker2, c.Hold, c.SKeys)
+		if err != nil {
+			out.Err = err.Error()
+			return out
 		}
-	}()
+		defer w1.close()
+		ws = append(ws, w1)
+	}
 	for _, op := range c.Ops {
-		r := 0
-		switch op[0].(string) {
-		case "set":
-			r = errClass(tw.SetTimer(key(op[1]), num(op[2]), time.Duration(num(op[3]))))
-		case "move":
-			r = errClass(tw.MoveTimer(key(op[1]), time.Duration(num(op[2]))))
-		case "remove":
-			r = errClass(tw.RemoveTimer(key(op[1])))
-		case "tick":
-			if stopped {
-				// the loop has returned: nobody receives from the ticker any more
-				// (a FakeTicker is closed by Stop, sending would panic)
-				if rv != nil {
-					select {
-					case rv.c <- time.Now():
-						r = 0
-					case <-time.After(3 * time.Millisecond):
-						r = 2
-					}
-				} else {
-					r = 2
-				}
-			} else if rv != nil {
-				rv.c <- time.Now()
-			} else {
-				fk.Tick()
-			}
-		case "drain":
-			r = errClass(tw.Drain(drained))
-		case "release":
-			gt.release(num(op[1]))
-		case "stop":
-			func() {
-				defer func() {
-					if recover() != nil {
-						r = 3
-					}
-				}()
-				tw.Stop()
-			}()
-			stopped = true
+		target := 0
+		if op[0].(string) == "@" {
+			target = int(num(op[1]))
+			op = op[2:]
 		}
-		if !stopped {
-			// the loop is sequential: once it takes this no-op, the operation above is done
-			tw.RemoveTimer(sentinel)
-		}
-		if !hx.Quiesce(busy, 5*time.Second) {
+		r := ws[target].do(op)
+		if !hx.Quiesce(busy, 30*time.Second) {
 			out.Err = "callbacks did not quiesce"
 			return out
 		}
-		out.Obs = append(out.Obs, Step{F: fs.take(), R: r})
+		st := Step{F: ws[target].fs.take(), R: r}
+		if len(ws) > 1 {
+			st.X = ws[1-target].fs.take()
+		}
+		out.Obs = append(out.Obs, st)
 	}
 	return out
 }
@@ -315,7 +398,7 @@ func runNew(c Case) Out {
 		// a real ticker runs: set a timer, stop, the wheel is closed
 		e1 := tw.SetTimer(int64(1), int64(1), time.Hour)
 		tw.Stop()
-		hx.Quiesce(busy, 5*time.Second)
+		hx.Quiesce(busy, 30*time.Second)
 		e2 := tw.SetTimer(int64(1), int64(1), time.Hour)
 		out.Obs = []Step{{F: [][2]int64{}, R: errClass(e1)}, {F: [][2]int64{}, R: errClass(e2)}}
 	}
@@ -410,7 +493,7 @@ func runCache(c Case) Out {
 	defer tap.Stop()
 	out.N = tap.NumSlots
 	out.Interval = int64(tap.Interval)
-	if !hx.Quiesce(busy, 5*time.Second) {
+	if !hx.Quiesce(busy, 30*time.Second) {
 		out.Err = "the replaced wheel did not stop"
 		return out
 	}
@@ -450,7 +533,7 @@ func runCache(c Case) Out {
 		case "drain":
 			st.R = errClass(tap.Drain(func(k, v any) { rec.Fire(k, v) }))
 		}
-		if !hx.Quiesce(busy, 5*time.Second) {
+		if !hx.Quiesce(busy, 30*time.Second) {
 			out.Err = "wheel callbacks did not quiesce"
 			return out
 		}
@@ -517,7 +600,7 @@ func runCleaner(c Case) Out {
 		case "tick":
 			tk.c <- time.Now()
 		}
-		if !hx.Quiesce(busy, 5*time.Second) {
+		if !hx.Quiesce(busy, 30*time.Second) {
 			out.Err = "cleaner did not quiesce"
 			return out
 		}
